@@ -446,7 +446,7 @@ def frag_dispatch():
         n = BoolExpr.norm(b)
         n = re.sub(r"static_assert\(.*?\);", "", n)
         n = re.sub(r"usingGetEvent=.*?::Type;", "", n)
-        if re.fullmatch(r"constEvent(&)?event=GetEvent::getEvent\((std::forward<T>\(first\),)?args\.\.\.\);directDispatch\(event,std::forward<Args>\(args\)\.\.\.\);", n):
+        if re.fullmatch(r"const(?:Event|auto)(&)?(\w+)=GetEvent::getEvent\((std::forward<T>\(first\),)?args\.\.\.\);directDispatch\(\2,std::forward<Args>\(args\)\.\.\.\);", n):
             out["dispatch%d" % i] = True
         elif re.fullmatch(r"directDispatch\(GetEvent::getEvent\((std::forward<T>\(first\),)?args\.\.\.\),std::forward<Args>\(args\)\.\.\.\);", n):
             out["dispatch%d" % i] = False
@@ -513,8 +513,10 @@ class PtrStmts:
     cond := path | path '==' path ; path := ident ('->' ident)* ; rhs := path | 'removedCounter' | integer"""
     VARS = {"node": 0, "beforeNode": 1}
 
-    def __init__(self, text):
-        text = re.sub(r"std::lock_guard<Mutex>\s*\w+\s*\(\s*mutex\s*\)\s*;", " LOCKGUARD ; ", strip_comments(text))
+    def __init__(self, text, params=None):
+        # pointer variables: the function's parameters, in order (index 0, 1), or the defaults
+        self.VARS = dict(self.VARS) if params is None else {nm: i for i, nm in enumerate(params)}
+        text = re.sub(r"std::lock_guard<\s*Mutex\s*>\s*\w+\s*\(\s*mutex\s*\)\s*;", " LOCKGUARD ; ", strip_comments(text))
         self.toks = re.findall(r"->|==|[A-Za-z_]\w*|\d+|[{}();=]", text)
         rest = re.sub(r"->|==|[A-Za-z_]\w*|\d+|[{}();=]|\s+", "", text)
         if rest:
@@ -609,7 +611,9 @@ class PtrStmts:
             self.locked = True
             return ".skip"
         if self.peek() == "NodePtr":
-            self.eat()          # declaration of a local pointer with initialiser
+            self.eat()          # declaration of a local pointer with initialiser: it becomes pointer variable 0
+            if self.peek() not in self.VARS and len(self.VARS) == 0:
+                self.VARS[self.peek()] = 0
         k, p = self.path()
         self.eat("=")
         if k == "counter":
@@ -631,11 +635,11 @@ def frag_cl():
     boolean conditions that guard them (traversal guard, remove / insert / ownsHandle tests)"""
     src = strip_comments(read_src("include/eventpp/callbacklist.h"))
     out = {}
-    for name, sig in (("doAppend", r"void\s+doAppend\s*\(\s*NodePtr\s*&\s*node\s*\)\s*\{"),
-                      ("doInsert", r"void\s+doInsert\s*\(\s*NodePtr\s*&\s*node\s*,\s*NodePtr\s*&\s*beforeNode\s*\)\s*\{"),
-                      ("doFreeNode", r"void\s+doFreeNode\s*\(\s*NodePtr\s*&\s*node\s*\)\s*\{")):
+    for name, sig in (("doAppend", r"void\s+doAppend\s*\(\s*(?:const\s+)?NodePtr\s*&\s*(\w+)\s*\)\s*\{"),
+                      ("doInsert", r"void\s+doInsert\s*\(\s*(?:const\s+)?NodePtr\s*&\s*(\w+)\s*,\s*(?:const\s+)?NodePtr\s*&\s*(\w+)\s*\)\s*\{"),
+                      ("doFreeNode", r"void\s+doFreeNode\s*\(\s*(?:const\s+)?NodePtr\s*&\s*(\w+)\s*\)\s*\{")):
         body = find_function_body(src, sig)
-        p = PtrStmts(body)
+        p = PtrStmts(body, params=list(re.search(sig, src, re.S).groups()))
         out[name] = p.stmts()
         if p.peek() is not None:
             raise ValueError("trailing tokens in " + name)
@@ -668,7 +672,7 @@ def frag_cl():
     m = re.fullmatch(r"\s*Counter\s+result\s*=\s*\+\+currentCounter\s*;\s*;?\s*if\s*\(\s*result\s*==\s*0\s*\)\s*\{(.*)result\s*=\s*\+\+currentCounter\s*;\s*\}\s*return\s+result\s*;\s*", body, re.S)
     if not m:
         raise ValueError("getNextCounter() not recognised")
-    pw = PtrStmts(m.group(1))
+    pw = PtrStmts(m.group(1), params=[])
     out["wrapReset"] = pw.stmts()
     if pw.peek() is not None:
         raise ValueError("trailing tokens in the wrap branch of getNextCounter")
